@@ -57,7 +57,7 @@ def instances(tier):
     q = [
         ("q", dict(MaxOps=2, MaxEnts=2, EntSizes="EntSizes3", WithRewrite="FALSE"), False),
         ("a", dict(MaxOps=1, MaxEnts=2, WithAppend="TRUE"), False),
-        ("n", dict(MaxOps=2, MaxEnts=1, MetaWords=2, SegWords=128, EntSizes="EntSizesN"), False),
+        ("n", dict(MaxOps=2, MaxEnts=2, MetaWords=2, SegWords=128, EntSizes="EntSizes2N"), False),
         ("c", dict(MaxOps=2, MaxEnts=1, SegWords=128, EntSizes="EntSizes1N", WithSnap="FALSE", WithAppend="TRUE", WithCutCrash="TRUE", INV=CUT_INV), False),
         ("k", dict(MaxOps=2, MaxEnts=1, EntSizes="EntSizes2", WithCorrupt="TRUE", INV=COR_INV), False),
         ("xz", dict(MaxOps=1, WithAppend="TRUE", ZeroToEndOn="FALSE", EmitOn="FALSE"), True),
@@ -535,6 +535,7 @@ def main():
     ambiguity = collections.Counter()
     ambiguity_samples = []
     known_local = {}
+    by_source = collections.Counter()
     for f in C.findings:
         cls = f.get("class")
         if cls == "divergence":
@@ -559,21 +560,19 @@ def main():
                 known_local[hit["id"]] = {"what": hit["what"], "witness": f}
                 print("KNOWN-FINDING: property=%s %s (%s; TODO-known, local list in checks/C16.py)" % (PROP, hit["what"], hit["id"]), flush=True)
             continue
+        src = f.get("campaign", "?")
+        if src == "replay":
+            src = "replay:" + re.sub(r"[0-9./].*$", "", f.get("id", "?"))    # the TLC instance the scenario came from
+        if f.get("kind") == "trace-rejected":
+            src = "b2-tracewal"
+        if common.match_known(V.known, sig) is None:
+            by_source[src] += 1
         V.report(sig, {"finding": f, "seed": seed, "how": "walsim %s: see finding.scenario; rebuild walsim and run the "
                        "scenario line with `walsim replay -in <file>` or the campaign with the same -seed" % f.get("campaign")},
                  what="[%s %s] %s" % (f.get("campaign"), f.get("id"), f.get("detail")))
 
-    by_source = collections.Counter()
-    for f in C.findings:
-        if f.get("class") == "violation":
-            src = f.get("campaign", "?")
-            if src == "replay":
-                src = "replay:" + re.sub(r"[0-9./].*$", "", f.get("id", "?"))    # TLC instance the scenario came from
-            if f.get("kind") == "trace-rejected":
-                src = "b2-tracewal"
-            by_source[src] += 1
     if by_source:
-        print("C16: findings-by-source %s (witnesses kept: at most 3 per signature and worker; known findings included)"
+        print("C16: findings-by-source %s (witnesses, at most 3 kept per signature and worker; known findings excluded)"
               % " ".join("%s=%d" % kv for kv in sorted(by_source.items())), flush=True)
     ndiv = sum(divergences.values())
     st = C.stats
